@@ -514,15 +514,15 @@ Section Transformers.
     apply append_one_spec in H as [-> _]. reflexivity.
   Qed.
 
-  Lemma run_gens_framed secret gens : forall srcs m m',
+  Lemma run_gens_framed go secret gens : forall srcs m m',
     Forall creates gens ->
-    Forall2 framed srcs m -> run_gens nonstr secret gens m = Ok m' ->
+    Forall2 framed srcs m -> run_gens nonstr go secret gens m = Ok m' ->
     exists k, Forall2 framed (srcs ++ repeat None k) m'.
   Proof.
     induction gens as [|g t IH]; intros srcs m m' Hc HF H; cbn [run_gens] in H.
     - inv H. exists 0. cbn. now rewrite app_nil_r.
     - inversion Hc as [|? ? Hg Ht]; subst.
-      destruct (gen_resource secret g) as [r| | |] eqn:EG; cbn [bind] in H; try discriminate.
+      destruct (gen_resource secret (merge_genopts go g)) as [r| | |] eqn:EG; cbn [bind] in H; try discriminate.
       destruct (absorb nonstr m _ r) as [m1| | |] eqn:EA; cbn [bind] in H; try discriminate.
       apply (absorb_create_spec _ _ _ _ Hg) in EA. subst m1.
       assert (HF1 : Forall2 framed (srcs ++ [None]) (m ++ [r])).
@@ -542,8 +542,8 @@ Section Transformers.
     - inv H. exists 0. cbn. now rewrite app_nil_r.
     - match type of H with bind ?E _ = _ => destruct E as [mm| | |] eqn:E1 end; cbn [bind] in H; try discriminate.
       assert (exists k1, Forall2 framed (srcs ++ repeat None k1) mm) as (k1 & H1).
-      { destruct (String.eqb k "ConfigMapGenerator"); [exact (run_gens_framed _ _ _ _ _ Hc1 HF E1)|].
-        destruct (String.eqb k "SecretGenerator"); [exact (run_gens_framed _ _ _ _ _ Hc2 HF E1)|].
+      { destruct (String.eqb k "ConfigMapGenerator"); [exact (run_gens_framed _ _ _ _ _ _ Hc1 HF E1)|].
+        destruct (String.eqb k "SecretGenerator"); [exact (run_gens_framed _ _ _ _ _ _ Hc2 HF E1)|].
         inv E1. exists 0. cbn. now rewrite app_nil_r. }
       destruct (IH _ _ _ H1 H) as (k2 & H2). exists (k1 + k2). rewrite <- app_assoc, <- repeat_app in H2. exact H2.
   Qed.
@@ -630,6 +630,50 @@ Qed.
 Lemma Forall2_framed'_keeps srcs m m2 : Forall2 framed' srcs m -> Forall2 keeps m m2 -> Forall2 framed' srcs m2.
 Proof.
   intros H. revert m2. induction H; intros m2 K; inversion K; subst; constructor; eauto using framed'_keeps.
+Qed.
+
+(* a relation between a list and a list obtained by dropping elements (IgnoreLocal) *)
+Inductive subrel {A B} (R : A -> B -> Prop) : list A -> list B -> Prop :=
+| sr_nil : subrel R [] []
+| sr_keep a b t t' : R a b -> subrel R t t' -> subrel R (a :: t) (b :: t')
+| sr_drop a t t' : subrel R t t' -> subrel R (a :: t) t'.
+
+Lemma subrel_filter {A} (f : A -> bool) l : subrel eq l (filter f l).
+Proof. induction l as [|x t IH]; cbn; [constructor|]. destruct (f x); [constructor; auto|constructor; exact IH]. Qed.
+
+Lemma subrel_trans_eq {A} (l1 l2 l3 : list A) : subrel eq l1 l2 -> subrel eq l2 l3 -> subrel eq l1 l3.
+Proof.
+  intros H. revert l3. induction H as [|a b t t' -> _ IH|a t t' _ IH]; intros l3 H2.
+  - exact H2.
+  - inversion H2; subst; [constructor; [reflexivity|auto]|apply sr_drop; auto].
+  - apply sr_drop. auto.
+Qed.
+
+Lemma Forall2_subrel {A B} (R : A -> B -> Prop) srcs m m' :
+  Forall2 R srcs m -> subrel eq m m' -> subrel R srcs m'.
+Proof.
+  intros HF. revert m'. induction HF as [|s r ts tm Hsr _ IH]; intros m' H; inversion H; subst.
+  - constructor.
+  - constructor; [exact Hsr|auto].
+  - apply sr_drop. auto.
+Qed.
+
+Lemma subrel_map {A B C} (R : A -> B -> Prop) (Q : A -> C -> Prop) (g : B -> C) l l' :
+  (forall a b, R a b -> Q a (g b)) -> subrel R l l' -> subrel Q l (map g l').
+Proof. intros H HS. induction HS; cbn; [constructor|constructor; auto|apply sr_drop; auto]. Qed.
+
+Lemma remove_loop_subrel ids kept : forall cur out, remove_loop ids kept cur = Ok out -> subrel eq cur out.
+Proof.
+  induction ids as [|id t IH]; intros cur out H; cbn [remove_loop] in H.
+  - inv H. clear. induction out; constructor; auto.
+  - destruct (existsb (resid_raw_eqb id) kept); [eauto|].
+    destruct (Nat.eqb _ _); [|discriminate]. eapply subrel_trans_eq; [apply subrel_filter|eauto].
+Qed.
+
+Lemma ignore_local_subrel m m' : ignore_local m = Ok m' -> subrel eq m m'.
+Proof.
+  unfold ignore_local. destruct (negb _); [discriminate|].
+  destruct (append_all pipe_cs [] _); try discriminate. apply remove_loop_subrel.
 Qed.
 
 Section Top.
@@ -757,37 +801,67 @@ Section Top.
     tree_ok t -> build nonstr o t = Ok outs ->
     exists (srcs : list (option node)) (outs0 : list node),
       Permutation outs outs0 /\ somes srcs = inputs t /\
-      Forall2 (fun s out => match s with
-                            | Some src => forall q, untouched q -> get_at q out = get_at q src
-                            | None => True
-                            end) srcs outs0.
+      subrel (fun s out => match s with
+                           | Some src => forall q, untouched q -> get_at q out = get_at q src
+                           | None => True
+                           end) srcs outs0.
   Proof.
     intros Hok H. unfold build in H. destruct t as [docs|n d ents]; [discriminate|].
     destruct (accumulate nonstr (PDir n d ents)) as [m| | |] eqn:EA; cbn [bind] in H; try discriminate.
     destruct (mapM (hash_res nonstr) m) as [m1| | |] eqn:EH; cbn [bind] in H; try discriminate.
     destruct pipe_rules as [rules| | |] eqn:ER; cbn [bind] in H; try discriminate.
     destruct (nameref_transform cs nonstr rules m1) as [m2| | |] eqn:EN; cbn [bind] in H; try discriminate.
-    destruct (sort_resources o m2) as [m3| | |] eqn:ES; cbn [bind] in H; try discriminate.
+    destruct (ignore_local m2) as [m2l| | |] eqn:EL; cbn [bind] in H; try discriminate.
+    destruct (sort_resources o m2l) as [m3| | |] eqn:ES; cbn [bind] in H; try discriminate.
     inv H.
     destruct (accumulate_framed nonstr _ _ Hok EA) as (srcs & HF & Hs).
     pose proof (hash_framed _ _ _ (framed_weaken _ _ HF) EH) as HF1.
     pose proof (Forall2_framed'_keeps _ _ _ HF1 (nameref_keeps _ _ _ ER EN)) as HF2.
-    exists srcs, (map (fun r => strip_node (r_node r)) m2). split; [|split; [exact Hs|]].
+    pose proof (Forall2_subrel _ _ _ _ HF2 (ignore_local_subrel _ _ EL)) as HS.
+    exists srcs, (map (fun r => strip_node (r_node r)) m2l). split; [|split; [exact Hs|]].
     - apply Permutation_map. apply sort_perm with (o := o). exact ES.
-    - clear -HF2. induction HF2 as [|o r so sm Hor _ IH]; cbn [map]; constructor; [|exact IH].
-      destruct o as [src|]; [|exact I]. destruct Hor as [H1 _]. intros q Hq.
+    - eapply subrel_map; [|exact HS]. intros o0 r Hor. cbv beta.
+      destruct o0 as [src|]; [|exact I]. destruct Hor as [H1 _]. intros q Hq.
       rewrite strip_node_frame by exact Hq. auto.
+  Qed.
+
+  (* nothing is dropped when no resource carries the local-config annotation at the end of the build *)
+  Lemma subrel_same_length {A B} (R : A -> B -> Prop) l l' :
+    subrel R l l' -> List.length l' = List.length l -> Forall2 R l l'.
+  Proof.
+    intros H. induction H as [|a b t t' Hab HS IH|a t t' HS IH]; cbn; intros HL.
+    - constructor.
+    - constructor; [exact Hab|apply IH; congruence].
+    - exfalso. assert (X : List.length t' <= List.length t).
+      { clear -HS. induction HS; cbn; lia. }
+      lia.
   Qed.
 End Top.
 
-(* the number of outputs: one per input document plus one per generated resource (nothing dropped, nothing doubled) *)
+(* the number of outputs: at most one per input document plus one per generated resource (nothing is doubled;
+   IgnoreLocal may drop resources), and exactly that many when nothing was dropped *)
 Corollary build_frame_count nonstr o t outs :
   tree_ok t -> build nonstr o t = Ok outs ->
-  exists srcs, List.length outs = List.length srcs /\ somes srcs = inputs t.
+  exists srcs, List.length outs <= List.length srcs /\ somes srcs = inputs t.
 Proof.
   intros Hok H. destruct (build_frame nonstr o t outs Hok H) as (srcs & outs0 & HP & Hs & HF).
-  exists srcs. split; [|exact Hs]. rewrite (Permutation_length HP). symmetry.
-  clear -HF. induction HF; cbn; [reflexivity|now f_equal].
+  exists srcs. split; [|exact Hs]. rewrite (Permutation_length HP).
+  clear -HF. induction HF; cbn; lia.
+Qed.
+
+Corollary build_frame_exact nonstr o t outs :
+  tree_ok t -> build nonstr o t = Ok outs ->
+  exists (srcs : list (option node)) (outs0 : list node),
+    Permutation outs outs0 /\ somes srcs = inputs t /\
+    (List.length outs = List.length srcs ->
+     Forall2 (fun s out => match s with
+                           | Some src => forall q, untouched q -> get_at q out = get_at q src
+                           | None => True
+                           end) srcs outs0).
+Proof.
+  intros Hok H. destruct (build_frame nonstr o t outs Hok H) as (srcs & outs0 & HP & Hs & HF).
+  exists srcs, outs0. split; [exact HP|split; [exact Hs|]]. intros HL.
+  apply subrel_same_length; [exact HF|]. rewrite <- HL. symmetry. apply Permutation_length. exact HP.
 Qed.
 
 (* non-vacuity: a two-layer tree inside the domain of the theorem *)
